@@ -242,11 +242,11 @@ def main(chk):
     groups = {}
     for ix, gk in case['groups']:
       groups.setdefault(tuple(gk), []).append(tuple(ix))
-    for trial0 in range(12 if thorough else 8):
+    for trial0 in range(14 if thorough else 12):
       trial = 2 if trial0 >= 6 else min(trial0, 1)          # trials >= 6: badly conditioned (large offset, tiny spread)
       # renderings of the affine flags and of the variance formula (trials < 6)
       us, ub = [(True, True), (True, True), (True, False), (False, True), (False, False), (True, False)][trial0 % 6] if trial0 < 6 else (True, True)
-      fast = trial0 % 2 == 0
+      fast = trial0 % 2 == 0 or trial0 >= 6      # (the badly conditioned trials exist for the clipping of the fast variance)
       if kind == 'rms':
         ub = False
       x = ints((2, 3, 4), -5, 6).astype(np.float64)
